@@ -220,21 +220,23 @@ def distinct : List Key → Bool
   | [] => true
   | k :: ks => !ks.contains k && distinct ks
 
-/-- acquire: `none` = not a legal script line (someone is already blocked, duplicate keys, the thread already
+/-- acquire: `none` = not a legal script line (someone is already blocked, duplicate keys in a WRITE list — a READ list
+may name a key twice and then takes it twice —, the thread already
 holds one of the keys); otherwise the new state and whether the call returned (`true`) or is parked -/
 def LockSt.acquire (s : LockSt) (t : Nat) (keys : List Key) (write : Bool) : Option (LockSt × Bool) :=
-  if s.waiter.isSome || keys.isEmpty || !distinct keys || s.holds.any (fun h => h.thread = t && keys.contains h.key) then none
+  if s.waiter.isSome || keys.isEmpty || (write && !distinct keys) || s.holds.any (fun h => h.thread = t && keys.contains h.key) then none
   else if keys.all (fun k => free s.holds k write) then some (⟨grant s.holds t keys write, none⟩, true)
   else some (⟨s.holds, some ⟨t, keys, write⟩⟩, false)
 
+/-- one hold of thread `t` is given back per listed key (a key listed twice in a READ list was taken twice) -/
 def dropHolds (holds : List Hold) (t : Nat) (keys : List Key) (write : Bool) : List Hold :=
-  holds.filter (fun h => !(h.thread = t && h.write = write && keys.contains h.key))
+  keys.foldl (fun hs k => hs.erase ⟨t, k, write⟩) holds
 
 /-- release: `none` = not legal (the thread is the blocked one, or does not hold every key in that mode);
 otherwise the new state and the thread whose blocked call now returns, if any -/
 def LockSt.release (s : LockSt) (t : Nat) (keys : List Key) (write : Bool) : Option (LockSt × Option Nat) :=
-  if keys.isEmpty || !distinct keys || (s.waiter.any (fun w => w.thread = t)) ||
-      !keys.all (fun k => s.holds.contains ⟨t, k, write⟩) then none
+  if keys.isEmpty || (write && !distinct keys) || (s.waiter.any (fun w => w.thread = t)) ||
+      !keys.all (fun k => decide (keys.count k ≤ s.holds.count ⟨t, k, write⟩)) then none
   else
     let holds := dropHolds s.holds t keys write
     match s.waiter with
@@ -272,15 +274,15 @@ def shDrop (sh : Nat → List Hold) (t : Nat) (keys : List Key) (write : Bool) :
   fun i => dropHolds (sh i) t keys write
 
 def ShLockSt.acquire (idx : Key → Nat) (s : ShLockSt) (t : Nat) (keys : List Key) (write : Bool) : Option (ShLockSt × Bool) :=
-  if s.waiter.isSome || keys.isEmpty || !distinct keys ||
+  if s.waiter.isSome || keys.isEmpty || (write && !distinct keys) ||
       keys.any (fun k => (s.shards (idx k)).any (fun h => h.thread = t && h.key = k)) then none
   else if (shardOrder idx keys).all (fun k => shFree idx s.shards k write) then
     some (⟨shGrant idx s.shards t keys write, none⟩, true)
   else some (⟨s.shards, some ⟨t, keys, write⟩⟩, false)
 
 def ShLockSt.release (idx : Key → Nat) (s : ShLockSt) (t : Nat) (keys : List Key) (write : Bool) : Option (ShLockSt × Option Nat) :=
-  if keys.isEmpty || !distinct keys || (s.waiter.any (fun w => w.thread = t)) ||
-      !keys.all (fun k => (s.shards (idx k)).contains ⟨t, k, write⟩) then none
+  if keys.isEmpty || (write && !distinct keys) || (s.waiter.any (fun w => w.thread = t)) ||
+      !keys.all (fun k => decide (keys.count k ≤ (s.shards (idx k)).count ⟨t, k, write⟩)) then none
   else
     let sh := shDrop s.shards t keys write
     match s.waiter with
